@@ -28,14 +28,13 @@ func init() {
 }
 
 // ruleEligibility checks the guard atoms at every topKSelector.submit site.
-// flagOnly: only the spent-by-pending atom (C09's clause).
-func ruleEligibility(c *report.Ctx, flagOnly bool) {
+// which selects the atoms that belong to the calling property's clause: "all" (C02), "pending" (C09: the
+// spent-by-pending flag), "locks" (C10: the staking/binding class atoms), "live" (C17: maturity and the
+// live spent flag, which reject a coin whose state changes while the query iterates).
+func ruleEligibility(c *report.Ctx, which string) {
 	p := c.P
-	floor := 7
-	if flagOnly {
-		floor = 1
-	}
-	c.Rule("eligibility-atoms", "a coin is submitted to the automatic selector only under the full eligibility conjunction (each atom resolved to the Credit field / method it tests)", floor)
+	floor := map[string]int{"all": 7, "pending": 1, "locks": 2, "live": 2}[which]
+	c.Rule("eligibility-atoms", "a coin is submitted to the automatic selector only under the eligibility atoms of this property's clause ("+which+"; each atom resolved to the Credit field / method it tests)", floor)
 	submit := fn(c, pkgWallet, "topKSelector", "submit")
 	utxoUsed := fn(c, pkgWallet, "WalletManager", "UTXOUsed")
 	if submit == nil || utxoUsed == nil {
@@ -92,8 +91,13 @@ func ruleEligibility(c *report.Ctx, flagOnly bool) {
 		{"!WalletManager.UTXOUsed(outpoint)", func(a an.Atom) bool { return an.BoolCall(a, utxoUsed, "", false) }},
 		{"!TxMemPool.CheckPoolOutPointSpend(outpoint)", func(a an.Atom) bool { return an.BoolCall(a, nil, "CheckPoolOutPointSpend", false) }},
 	}
-	if flagOnly {
+	switch which {
+	case "pending":
 		reqs = reqs[1:2]
+	case "locks":
+		reqs = reqs[3:5]
+	case "live":
+		reqs = []req{reqs[0], reqs[2]}
 	}
 	for i, s := range sites {
 		gs := p.GuardsOf(s)
@@ -120,7 +124,7 @@ func ruleEligibility(c *report.Ctx, flagOnly bool) {
 
 func runC02(c *report.Ctx) {
 	p := c.P
-	ruleEligibility(c, false)
+	ruleEligibility(c, "all")
 
 	// ---- reservation ---------------------------------------------------------------
 	c.Rule("reservation", "every success return of a Create* method passes MarkUsedUTXO, so a second draft cannot select the same coins", 4)
